@@ -401,6 +401,15 @@ func Pending() int  { return 0 }
 func RunPending()   {}
 func DropPending()  {}
 
+// DuringSleep: f runs while the code under test is in its k-th time.Sleep (each of the given
+// length) counted from now. Natively this is timing based: f fires in the middle of that sleep.
+func DuringSleep(k int, period time.Duration, f func()) {
+	go func() {
+		time.Sleep(time.Duration(k-1)*period + period/2)
+		f()
+	}()
+}
+
 // RunPendingNamed: natively the goroutines run by themselves; give them a moment.
 func RunPendingNamed(name string) { time.Sleep(50 * time.Millisecond) }
 
